@@ -45,10 +45,13 @@ ok = failed == 0 and passed >= 198 and res['demo_fails_with_change'] and res['de
 res['confirmed'] = ok
 if not ok:
     print(json.dumps(res, indent=1)); print(out1[-800:]); print(out2[-800:]); sys.exit(2)
-# run my checks against the patched tree
+# run my checks against the patched tree, from a frozen copy of the harness (so that edits made
+# to /verif/harness while this runs cannot disturb the build)
 run(['git', 'apply', patch])
 checks = {}
-cenv = dict(os.environ, VERIF_REPO=wt, VERIF_ALT_TARGET='/tmp/verif-alt-target-%s' % pid, VERIF_EVIDENCE_DIR='/tmp/verif-alt-evidence-%s' % pid)
+snap = '/tmp/verif-harness-snap-%s' % pid
+subprocess.run(['rsync', '-a', '--delete', '--exclude', 'target', '--exclude', 'fuzz/target', '--exclude', 'fuzz/corpus', '--exclude', 'fuzz/artifacts', '/verif/harness/', snap + '/'], check=True)
+cenv = dict(os.environ, VERIF_HARNESS=snap, VERIF_REPO=wt, VERIF_ALT_TARGET='/tmp/verif-alt-target-%s' % pid, VERIF_EVIDENCE_DIR='/tmp/verif-alt-evidence-%s' % pid)
 for cid in [pid] + extra:
     t0 = time.time()
     r = subprocess.run(['/verif/check', cid, 'quick'], cwd='/verif', env=cenv, stdout=subprocess.PIPE, stderr=subprocess.STDOUT, text=True)
@@ -57,6 +60,7 @@ for cid in [pid] + extra:
 res['checks'] = checks
 clean()
 shutil.rmtree('/tmp/verif-alt-evidence-%s' % pid, ignore_errors=True)
+shutil.rmtree(snap, ignore_errors=True)
 dst = '/verif/seeded/%s-%s' % (pid, k)
 os.makedirs(dst, exist_ok=True)
 shutil.copy(patch, os.path.join(dst, 'patch.diff'))
